@@ -522,6 +522,7 @@ where
                     policy,
                     ReadConsistencyPolicy::EventualConsistency | ReadConsistencyPolicy::LeaseRead
                 )
+                && self.node_config.raft.read_consistency.allow_client_override
             {
                 return match self
                     .read_handle
